@@ -39,7 +39,7 @@ class Auditable:
 
 class BaseV(pjrpc.server.ViewMixin):
     def inh(self):
-        return 'V.inh'
+        return ('V.inh' if isinstance(self, V) else 'BaseV.inh')
 
 
 class V(Auditable, BaseV):
@@ -65,6 +65,19 @@ class V(Auditable, BaseV):
         return 'V.__secret__'
 
 
+class BaseW(pjrpc.server.ViewMixin):
+    def inh(self):
+        return 'W.inh'
+
+
+class W(BaseW):
+    """derived from a view that was registered (somewhere else in the process) BEFORE this one"""
+    def wpub(self):
+        return 'W.wpub'
+
+
+MethodRegistry().view(BaseW)      # the base view is in use elsewhere first
+
 FUNCS = dict(f1=f1, f2=f2, f3=f3)
 VIEW_PUBLIC = {'pub1': 'V.pub1', 'pub2': 'V.pub2', 'st': 'V.st', 'inh': 'V.inh', 'audit': 'V.audit'}
 VIEW_FORBIDDEN = ['_hidden', '__secret__', 'data', '__methods__', '__init__', '__class__', '_audit_private']
@@ -72,7 +85,9 @@ PREFIXES = [None, 'a', 'a.b']
 
 # primitive operations (merge is added dynamically)
 OPS = [('add', 'f1', None), ('add', 'f2', None), ('add', 'f1', 'x'), ('add', 'f2', 'x'), ('add', 'f1', 'f2'),
-       ('add_methods', 'f1', None), ('add_method_obj', 'f2', 'y'), ('view', None), ('view', 'v')]
+       ('add_methods', 'f1', None), ('add_method_obj', 'f2', 'y'), ('view', None), ('view', 'v'),
+       # the decorator-factory spellings @registry.add(name=..) / @registry.view(prefix=..), and the base view on its own
+       ('add_deco', 'f2', 'x'), ('view_deco', 'v'), ('view_deco', None), ('viewbase', None), ('view2', None)]
 
 
 def join(*parts):
@@ -89,9 +104,16 @@ def apply_model(model, prefix, op):
         m[join(prefix, op[1])] = op[1]
     elif kind == 'add_method_obj':
         m[op[2]] = op[1]          # only used on registries without prefix (see DESIGN: both readings agree there)
-    elif kind == 'view':
+    elif kind == 'add_deco':
+        m[join(prefix, op[2])] = op[1]
+    elif kind in ('view', 'view_deco'):
         for name, tag in VIEW_PUBLIC.items():
             m[join(prefix, op[1], name)] = tag
+    elif kind == 'viewbase':
+        m[join(prefix, 'inh')] = 'BaseV.inh'
+    elif kind == 'view2':
+        m[join(prefix, 'inh')] = 'W.inh'
+        m[join(prefix, 'wpub')] = 'W.wpub'
     elif kind == 'merge':
         for name, tag in op[1][1].items():       # operand = (history, model, prefix)
             m[join(prefix, name)] = tag
@@ -114,6 +136,14 @@ def apply_real(reg, op):
             reg.view(V)
         else:
             reg.view(V, prefix=op[1])
+    elif kind == 'add_deco':
+        reg.add(name=op[2])(FUNCS[op[1]])
+    elif kind == 'view_deco':
+        (reg.view(prefix=op[1]) if op[1] is not None else reg.view())(V)
+    elif kind == 'viewbase':
+        reg.view(BaseV)
+    elif kind == 'view2':
+        reg.view(W)
     elif kind == 'merge':
         reg.merge(build(op[1][2], op[1][0]))
 
@@ -128,7 +158,7 @@ def build(prefix, history):
 def tag_of(method):
     fn = method.method
     if getattr(method, 'view_cls', None) is not None:
-        return 'V.' + method.method_name
+        return {'BaseV': 'BaseV.', 'W': 'W.', 'BaseW': 'W.'}.get(method.view_cls.__name__, 'V.') + method.method_name
     return fn.__name__
 
 
@@ -237,10 +267,10 @@ def probe(d, is_async, name):
 def run_state(case, rec):
     st = _STATES[case['index']]
     prefix, hist, model = st['prefix'], st['history'], st['model']
-    reg = build(prefix, hist)
     obs = []
     for disp in ('sync', 'async'):
         for extra in (False, True):
+            reg = build(prefix, hist)
             d = pjrpc.server.AsyncDispatcher() if disp == 'async' else pjrpc.server.Dispatcher()
             m = dict(model)
             if extra:
@@ -249,6 +279,13 @@ def run_state(case, rec):
                 m['f3'] = 'f3'
             d.add_methods(reg)
             if extra:
+                # the SAME registry object changes and is attached again: additions and replacements must arrive
+                reg.add(f3, name='late')
+                d.add(f2, name=join(prefix, 'late2'))
+                reg.add(f3, name='late2')
+                d.add_methods(reg)
+                m[join(prefix, 'late')] = 'f3'
+                m[join(prefix, 'late2')] = 'f3'
                 d.view(V)
                 m.update(VIEW_PUBLIC)
                 d.add(f3, name='f1')
